@@ -47,6 +47,7 @@ class EventRecorder:
         self.frames = {}          # id(frame) -> fid, while alive
         self.by_tok = {}          # the generated function's own call token -> fid
         self.foreign = set()      # ids of frames that were started before the recording began
+        self.thrown = {}          # fid -> (offset of the YIELD_VALUE it was thrown into / closed at, yields announced by then)
         self.n_foreign = 0
         self.codes = {}           # code -> cid
         self.code_objs = {}
@@ -70,6 +71,12 @@ class EventRecorder:
             except Exception as e:           # never disturb the run
                 self.malformed.append(repr(e))
         return self.tracer(frame, event, arg)
+
+    def announced(self, tok):
+        """how many yields the (generated) function behind this token has announced to the ground-truth recorder so far"""
+        from . import recorder
+        rec = recorder.REC.calls.get(tok) if (recorder.REC is not None and tok is not None) else None
+        return None if rec is None else len(rec["yields"])
 
     def record(self, frame, event, arg, code):
         cid = self.cid(code)
@@ -96,6 +103,11 @@ class EventRecorder:
             fid = self.frames[id(frame)]
             if tok is not None:
                 self.by_tok[tok] = fid
+            if resumed and code.co_code[lasti] == opcode.opmap["YIELD_VALUE"]:
+                # re-entered while still AT its yield (a next() / send() finds it at the RESUME after it): thrown into or closed.
+                # What the program announced as yielded so far is remembered: if the frame is left at the same instruction with
+                # None and no new announcement, nothing was yielded - the exception unwound it
+                self.thrown[fid] = (lasti, self.announced(tok))
             names = code.co_varnames[: code.co_argcount + code.co_kwonlyargcount]
             args = tuple((Q(n), self.ty(frame.f_locals[n])) for n in names if n in frame.f_locals)
             self.events.append(("call", str(fid), str(cid), "true" if resumed else "false", args))
@@ -110,6 +122,9 @@ class EventRecorder:
             if tok is not None:
                 self.by_tok[tok] = fid
             op = OPCLASS.get(code.co_code[lasti], "other")
+            mark = self.thrown.pop(fid, None)
+            if mark is not None and op == "yieldValue" and mark[0] == lasti and arg is None and mark[1] == self.announced(tok):
+                op = "other"           # the end of the call by the thrown exception, not a yield of None
             coro = bool(code.co_flags & inspect.CO_COROUTINE)
             if code.co_flags & inspect.CO_ASYNC_GENERATOR and op == "yieldValue":
                 # an asynchronous generator suspends at its awaits and at its yields; CPython hands a yielded value over wrapped
